@@ -89,6 +89,8 @@ fn alphabet() -> Alphabet {
         (E::cmpeq(eb(), c(0, 8)).unwrap(), E::cmpneq(eb(), c(0, 8)).unwrap()),
         // neither holds when b >= 2
         (E::cmpeq(eb(), c(0, 8)).unwrap(), E::cmpeq(eb(), c(1, 8)).unwrap()),
+        // neither can be evaluated: `u` is never defined (an error must be reported, and it must be that error)
+        (E::cmpeq(E::scalar(il::scalar("u", 8)), c(0, 8)).unwrap(), E::cmpneq(E::scalar(il::scalar("u", 8)), c(0, 8)).unwrap()),
     ];
     let guards3 = vec![
         E::cmpeq(eb(), c(0, 8)).unwrap(),
@@ -420,7 +422,7 @@ fn run(ctx: &Ctx) -> Acc {
         max_instrs: if thorough { 3 } else { 2 },
         max_per_block: if thorough { 3 } else { 2 },
         n_ops: alpha.ops.len(),
-        n_guards: 2,
+        n_guards: alpha.guards.len(),
         all_entries: thorough,
         cond_edges: true,
         with_exit: false,
